@@ -152,6 +152,8 @@ func (pConn *PFCPConn) handleSessionEstablishmentRequest(msg message.Message) (m
 			ie.CauseRequestRejected)
 	}
 
+	verifPoint("sess.req.beforeStore", pConn.RemoteAddr().String(), session.localSEID)
+
 	err = pConn.store.PutSession(session)
 	if err != nil {
 		logger.PfcpLog.Errorf("failed to put PFCP session to store: %v", err)
